@@ -231,10 +231,10 @@ Section Image.
            gw_scheme rq_method rq_target rq_body].
       rewrite Hmethod, Hscheme, environ_path_spec, Hpath, Hquery in H.
       unfold str.
-      repeat (destruct H as [H|H]; [subst kv; cbn [In]; tauto|]). contradiction.
+      repeat (destruct H as [H|H]; [subst kv; cbn [In]; repeat (first [left; reflexivity | right])|]). contradiction.
     - intros k0 H. unfold base_environ, smap. cbn [map app fst snd].
       unfold spec_server_part, spec_environ in H. cbn [firstn app map fst] in H. unfold str in H.
-      repeat (destruct H as [H|H]; [subst k0; cbn [In]; tauto|]). contradiction.
+      repeat (destruct H as [H|H]; [subst k0; cbn [In]; repeat (first [left; reflexivity | right])|]). contradiction.
   Qed.
 End Image.
 
